@@ -486,8 +486,10 @@ pub fn supervise(pi: PropInfo, args: SupArgs, replay_files: Vec<PathBuf>, simpli
             eprintln!("missing binary {} (build profile {profile} first)", bin.display());
             return (2, serde_json::Value::Null);
         }
+        // the unoptimised build runs the same generator at a sixteenth of the case count (it is that much slower)
+        let per_p = if profile == "unopt" { (per / 16).max(1) } else { per };
         let child = Command::new(bin)
-            .args(["worker", id, args.tier.name(), &args.seed.to_string(), &w.to_string(), &seed_idx.to_string(), &per.to_string(), outdir.to_str().unwrap(), profile])
+            .args(["worker", id, args.tier.name(), &args.seed.to_string(), &w.to_string(), &seed_idx.to_string(), &per_p.to_string(), outdir.to_str().unwrap(), profile])
             .stdout(Stdio::null())
             .stderr(Stdio::inherit())
             .spawn();
